@@ -284,77 +284,129 @@ func oneLine(s string) string {
 }
 
 // ruleKeywordCase implements C15.R3: keywords are recognised on the lower-cased lexeme and every keyword spelling is lower case.
+// The keyword table may be a string switch or a package-level map literal; both are recognised.
 func ruleKeywordCase(c *Ctx, rule string) {
 	r := c.R
 	fd := c.findFuncDecl("ast", "Lexer", "getNextToken")
-	info := c.info("ast")
-	if fd == nil {
+	fn := c.ssaFuncFor("ast", fd)
+	tokT := c.NamedType("ast", "TokenType")
+	if fd == nil || fn == nil || tokT == nil {
 		r.Ob(rule, "anchor getNextToken", "").Und("not found")
 		return
 	}
-	// the keyword switch: a switch over a string tag with >= 20 string-literal cases assigning TokenType constants
-	var kw *ast.SwitchStmt
-	ast.Inspect(fd.Body, func(n ast.Node) bool {
-		if sw, ok := n.(*ast.SwitchStmt); ok && sw.Tag != nil {
-			if t := info.TypeOf(sw.Tag); t != nil {
-				if b, ok := t.Underlying().(*types.Basic); ok && b.Info()&types.IsString != 0 && len(sw.Body.List) >= 20 {
-					kw = sw
-				}
-			}
-		}
-		return true
-	})
-	if kw == nil {
-		r.Ob(rule, "keyword switch in getNextToken", c.pos(fd.Pos())).Und("no string switch with >= 20 cases found")
-		return
-	}
-	n := 0
-	var notLower []string
-	for _, cc := range kw.Body.List {
-		for _, e := range cc.(*ast.CaseClause).List {
-			if tv, ok := info.Types[e]; ok && tv.Value != nil && tv.Value.Kind() == constant.String {
-				n++
-				s := constant.StringVal(tv.Value)
-				if s != strings.ToLower(s) {
-					notLower = append(notLower, s)
-				}
-			}
-		}
-	}
-	r.Floor(rule, "keyword spellings in the keyword switch", n, 45)
-	ob := r.Ob(rule, "keyword spellings are lower case", c.pos(kw.Pos()))
-	ob.Check(len(notLower) == 0, fmt.Sprintf("%d spellings, each equal to its own lower-casing", n), "keyword spellings that can never match a lower-cased lexeme: "+strings.Join(notLower, ", "))
-	// the tag is data-dependent on strings.ToLower applied (unconditionally) to the lexeme buffer
-	ob2 := r.Ob(rule, "keyword switch tag is strings.ToLower of the lexeme on every path", c.pos(kw.Pos()))
-	fn := c.ssaFuncFor("ast", fd)
-	if fn == nil {
-		ob2.Und("no SSA for getNextToken")
-		return
-	}
-	// find the string comparisons against keyword constants: BinOp EQL with a const string operand that is one of the keywords
-	var tagVals = map[ssa.Value]bool{}
+	// the value that is looked up / compared: results of strings.ToLower in getNextToken and the repository functions it calls
+	var lowers []*ssa.Call
+	fns := []*ssa.Function{fn}
 	instrsOf(fn, func(in ssa.Instruction) {
-		if b, ok := in.(*ssa.BinOp); ok && b.Op == token.EQL {
-			if k, ok := b.Y.(*ssa.Const); ok && k.Value != nil && k.Value.Kind() == constant.String && constant.StringVal(k.Value) == "find" {
-				tagVals[b.X] = true
-			}
+		if sc := staticCallee(in); sc != nil && c.isRepoFn(sc) && sc.Pkg == fn.Pkg && sc.Name() != "read" {
+			fns = append(fns, sc)
 		}
 	})
-	if len(tagVals) != 1 {
-		ob2.Und(fmt.Sprintf("expected exactly one value compared with \"find\", found %d", len(tagVals)))
+	for _, f := range fns {
+		instrsOf(f, func(in ssa.Instruction) {
+			if call, ok := in.(*ssa.Call); ok && isCallTo(in, "strings", "ToLower") {
+				lowers = append(lowers, call)
+			}
+		})
+	}
+	// the keyword subject: the value compared with the spelling "find", or used to index a map that has the key "find"
+	mapKeys := func(g *ssa.Global) map[string]bool {
+		keys := map[string]bool{}
+		if init := g.Pkg.Func("init"); init != nil {
+			var mv ssa.Value
+			instrsOf(init, func(y ssa.Instruction) {
+				if st, ok := y.(*ssa.Store); ok && st.Addr == ssa.Value(g) {
+					mv = st.Val
+				}
+			})
+			instrsOf(init, func(y ssa.Instruction) {
+				if mu, ok := y.(*ssa.MapUpdate); ok && mu.Map == mv {
+					if k, ok := mu.Key.(*ssa.Const); ok && k.Value != nil && k.Value.Kind() == constant.String {
+						keys[constant.StringVal(k.Value)] = true
+					}
+				}
+			})
+		}
+		return keys
+	}
+	subjects := map[ssa.Value]bool{}
+	spell := map[string]bool{}
+	var tablePos token.Pos
+	for _, f := range fns {
+		instrsOf(f, func(in ssa.Instruction) {
+			switch x := in.(type) {
+			case *ssa.BinOp:
+				if k, ok := x.Y.(*ssa.Const); ok && x.Op == token.EQL && k.Value != nil && k.Value.Kind() == constant.String && constant.StringVal(k.Value) == "find" {
+					subjects[x.X] = true
+					tablePos = x.Pos()
+				}
+			case *ssa.Lookup:
+				if ld, ok := x.X.(*ssa.UnOp); ok {
+					if g, ok := ld.X.(*ssa.Global); ok {
+						if keys := mapKeys(g); keys["find"] {
+							subjects[x.Index] = true
+							tablePos = x.Pos()
+							for k := range keys {
+								spell[k] = true
+							}
+						}
+					}
+				}
+			}
+		})
+	}
+	for _, f := range fns {
+		instrsOf(f, func(in ssa.Instruction) {
+			if x, ok := in.(*ssa.BinOp); ok && x.Op == token.EQL && subjects[x.X] {
+				if k, ok := x.Y.(*ssa.Const); ok && k.Value != nil && k.Value.Kind() == constant.String {
+					spell[constant.StringVal(k.Value)] = true
+				}
+			}
+		})
+	}
+	usedLowered := len(subjects) > 0
+	for v := range subjects {
+		if call, ok := v.(*ssa.Call); !ok || !isCallTo(call, "strings", "ToLower") {
+			spell["\x00unlowered:"+exprStr(v)] = true
+		}
+	}
+	var words, notLower, unlowered []string
+	for w := range spell {
+		if strings.HasPrefix(w, "\x00unlowered:") {
+			unlowered = append(unlowered, strings.TrimPrefix(w, "\x00unlowered:"))
+			continue
+		}
+		words = append(words, w)
+		if w != strings.ToLower(w) {
+			notLower = append(notLower, w)
+		}
+	}
+	sort.Strings(notLower)
+	r.Floor(rule, "keyword spellings in the lexer's keyword table", len(words), 45)
+	if len(words) == 0 {
+		r.Ob(rule, "keyword table of the lexer", c.pos(fn.Pos())).Und("no keyword table (string switch or map[string]TokenType) found in getNextToken or its helpers")
 		return
 	}
-	for v := range tagVals {
-		call, ok := v.(*ssa.Call)
-		if !ok || !isCallTo(call, "strings", "ToLower") {
-			ob2.Bad("the value compared with the keyword spellings is " + v.String() + ", not a direct result of strings.ToLower: some lexemes are matched case-sensitively")
-			return
+	ob := r.Ob(rule, "keyword spellings are lower case", c.pos(tablePos))
+	ob.Check(len(notLower) == 0, fmt.Sprintf("%d spellings, each equal to its own lower-casing", len(words)), "keyword spellings that can never match a lower-cased lexeme: "+strings.Join(notLower, ", "))
+	ob2 := r.Ob(rule, "keywords are looked up with strings.ToLower of the whole lexeme on every path", c.pos(tablePos))
+	switch {
+	case len(unlowered) > 0:
+		sort.Strings(unlowered)
+		ob2.Bad("the keyword table is consulted with " + strings.Join(unlowered, ", ") + ", which is not a direct result of strings.ToLower: some lexemes are matched case-sensitively")
+	case !usedLowered || len(lowers) == 0:
+		ob2.Bad("the keyword table is not consulted with strings.ToLower of the lexeme")
+	default:
+		whole := true
+		for _, l := range lowers {
+			a := l.Call.Args[0]
+			if ac, ok := a.(*ssa.Call); !ok || ac.Call.StaticCallee() == nil || ac.Call.StaticCallee().Name() != "String" {
+				if _, isParam := a.(*ssa.Parameter); !isParam {
+					whole = false
+				}
+			}
 		}
-		arg := call.Call.Args[0]
-		if ac, ok := arg.(*ssa.Call); ok && ac.Call.StaticCallee() != nil && ac.Call.StaticCallee().Name() == "String" {
-			ob2.OKnt("tag = strings.ToLower(buf.String())")
-		} else {
-			ob2.Bad("strings.ToLower is applied to " + arg.String() + ", not to the whole lexeme buffer")
-		}
+		ob2.Check(whole, "lookup key = strings.ToLower(buf.String())", "strings.ToLower is not applied to the whole lexeme buffer")
+		ob2.Nontrivial = true
 	}
 }
